@@ -55,7 +55,7 @@ type Env struct {
 	pkg         *types.Package
 	inOld       bool
 	siteInvoked map[string]*Term // at a call site: invoked(p) for the callee's consumed parameters
-	site        bool // evaluating a callee contract at a call site: names resolve to vars only
+	site        bool             // evaluating a callee contract at a call site: names resolve to vars only
 	args        []Value
 	neg         bool // inside a negation / antecedent: forall not allowed
 }
